@@ -736,7 +736,7 @@ def _sub_states(sh, case):
             if done:
                 break
             got.append(tuple(int(v) for v in np.atleast_1d(inc)))
-            x = sm._last_projected_index + 1
+            x += 1  # the caller's protocol (InversionMethod): x counts the states obtained so far; no private field is read
         else:
             sh.violation(f"C14:states:d{dim}:{equal}:{sym}:no-exhaustion-signal", f"shape {shape}: no exhaustion after {limit} indices", None)
     finally:
